@@ -959,7 +959,8 @@ func (c *Compiler) linkRecursiveCode(ctx *compileContext) error {
 
 		// extend length to alloc slot for elemIdx + length
 		curTotalLength := uintptr(recursive.TotalLength()) + 3
-		nextTotalLength := uintptr(totalLength) + 3
+		// lastCode uses the slots totalLength+1 .. totalLength+3
+		nextTotalLength := uintptr(totalLength) + 4
 
 		compiled := recursive.Jmp
 		compiled.Code = code
@@ -968,6 +969,19 @@ func (c *Compiler) linkRecursiveCode(ctx *compileContext) error {
 		compiled.Linked = true
 
 		recursiveCodes[typeptr] = compiled
+	}
+	// a recursive code is also entered from the frame of a recursive code (its own or
+	// another one's), whose slots must stay intact: skip the largest such frame.
+	var maxLen uintptr
+	for _, compiled := range recursiveCodes {
+		if maxLen < compiled.NextLen {
+			maxLen = compiled.NextLen
+		}
+	}
+	for _, recursive := range *ctx.recursiveCodes {
+		if recursive.Jmp.CurLen < maxLen {
+			recursive.Jmp.CurLen = maxLen
+		}
 	}
 	return nil
 }
